@@ -6,6 +6,7 @@ import (
 	"time"
 
 	"github.com/tyler-sommer/stick"
+	"github.com/tyler-sommer/stick/twig"
 
 	"verif/core"
 )
@@ -174,18 +175,43 @@ func c11Run(c core.Case) core.Result {
 		return core.Okay(true, norm.Replace(out))
 	case "diff":
 		p, a, use := c.N[0], c.N[1], c.N[2]
+		tw := len(c.N) > 3 && c.N[3] == 1 // the twig environment, markup in the macro body and in the arguments
 		norm := strings.NewReplacer("n=main", "n=*", "n=mac", "n=*", "N=MAIN", "N=*", "N=MAC", "N=*")
 		var first, firstSrc string
 		for form := 0; form < c11Forms; form++ {
-			prelude, call, _ := c11Call(form, c11Args(a))
+			args := c11Args(a)
+			def := c11MacroDef("m", p)
+			if tw {
+				args = strings.ReplaceAll(args, "'s", "'<s>&")
+				def = strings.Replace(def, "%}(", "%}<b>&amp;(", 1)
+			}
+			prelude, call, _ := c11Call(form, args)
 			src, _ := c11Use(use, call, "")
-			tpls := map[string]string{"mac": c11MacroDef("m", p)}
+			tpls := map[string]string{"mac": def}
 			main := "{% macro w(a) %}<{{ a }}>{% endmacro %}"
 			if form == 0 {
-				main += c11MacroDef("m", p)
+				main += def
 			}
 			tpls["main"] = main + prelude + src
-			out, err, pan, _ := c11Exec(tpls)
+			var out string
+			var err error
+			var pan string
+			if tw {
+				var log []string
+				env := c11Env(tpls, &log)
+				tenv := twig.New(env.Loader)
+				for k, f := range env.Functions {
+					tenv.Functions[k] = f
+				}
+				for k, f := range env.Filters {
+					if _, has := tenv.Filters[k]; !has {
+						tenv.Filters[k] = f
+					}
+				}
+				out, err, pan = tryExec(tenv, "main", nil)
+			} else {
+				out, err, pan, _ = c11Exec(tpls)
+			}
 			if pan != "" {
 				return core.Violation("panic", "panicked: "+pan+"\n    "+tpls["main"])
 			}
@@ -193,7 +219,7 @@ func c11Run(c core.Case) core.Result {
 			if form == 0 {
 				first, firstSrc = got, tpls["main"]
 			} else if got != first {
-				return core.Violation("call-forms-differ", fmt.Sprintf("%q gives %q but %q gives %q", firstSrc, first, tpls["main"], got))
+				return core.Violation("call-forms-differ", fmt.Sprintf("%q gives %q but %q gives %q (twig environment: %v)", firstSrc, first, tpls["main"], got, tw))
 			}
 		}
 		return core.Okay(true, first)
@@ -377,6 +403,43 @@ func c11Run(c core.Case) core.Result {
 			return core.Violation("macro", fmt.Sprintf("renders\n    %q, want\n    %q\n    %s", out, want, desc))
 		}
 		return core.Okay(true, out)
+	case "between":
+		// what a template imported stays what it is across an embed / include of a template that imports other macros
+		// under the same local names
+		p, a, how, rename := c.N[0], c.N[1], c.N[2], c.N[3] == 1
+		local := "m"
+		imp := "{% from 'mac' import m %}"
+		if rename {
+			local = "g"
+			imp = "{% from 'mac' import m as g %}"
+		}
+		r := c11MacroExpect(p, a, "mac")
+		args := c11Args(a)
+		other := []string{"{% embed 'o' %}{% endembed %}", "{% include 'o' %}", "{% embed 'o' %}{% block ob %}OB{% endblock %}{% endembed %}", "{% include 'o' only %}",
+			"{% for q in [1, 2] %}{% embed 'o' %}{% endembed %}{% endfor %}"}[how]
+		otherOut := "o(N<z>N<z>)"
+		switch how {
+		case 2:
+			otherOut = "o(N<z>N<z>OB)"
+		case 4:
+			otherOut += otherOut
+		}
+		tpls := map[string]string{
+			"mac":  c11MacroDef("m", p) + "{% macro n(q) %}WRONG{% endmacro %}",
+			"mac2": "{% macro n(q) %}N<{{ q }}>{% endmacro %}{% macro m(q) %}WRONG2{% endmacro %}",
+			"o":    "{% from 'mac2' import n as " + local + " %}{% import 'mac2' as i %}o({{ " + local + "('z') }}{{ i.n('z') }}{% block ob %}{% endblock %})",
+			"main": imp + "{% import 'mac' as i %}B[{{ " + local + "(" + args + ") }}]" + other + "A[{{ " + local + "(" + args + ") }}|{{ i.m(" + args + ") }}]",
+		}
+		want := "B[" + r + "]" + otherOut + "A[" + r + "|" + r + "]"
+		out, err, pan, _ := c11Exec(tpls)
+		desc := fmt.Sprintf("main=%q o=%q mac=%q mac2=%q", tpls["main"], tpls["o"], tpls["mac"], tpls["mac2"])
+		if pan != "" || err != nil {
+			return core.Violation("error", fmt.Sprintf("fails: %v %s (want %q)\n    %s", err, pan, want, desc))
+		}
+		if out != want {
+			return core.Violation("macro", fmt.Sprintf("renders\n    %q, want\n    %q\n    %s", out, want, desc))
+		}
+		return core.Okay(true, out)
 	case "ctxreuse":
 		// one context map passed to executions on two environments whose macro libraries have the same name and
 		// different bodies (and parameter orders): each execution calls its own environment's macros
@@ -449,11 +512,12 @@ func c11Levels(tier string) []core.Level {
 				}
 			}
 		}},
-		{Name: "differential: the five call forms give identical results (modulo the template name) for every arity and use", Gen: func(emit func(core.Case)) {
+		{Name: "differential: the five call forms give identical results (modulo the template name) for every arity and use, in the core environment and - with markup in the macro body and in the arguments - in the twig environment", Gen: func(emit func(core.Case)) {
 			for p := 0; p <= 4; p++ {
 				for a := 0; a <= 6; a++ {
 					for use := 0; use < c11Uses; use++ {
 						emit(core.Case{Fam: "diff", N: []int{p, a, use}})
+						emit(core.Case{Fam: "diff", N: []int{p, a, use, 1}})
 					}
 				}
 			}
@@ -513,6 +577,17 @@ func c11Levels(tier string) []core.Level {
 					for how := 0; how < 8; how++ {
 						for use := 0; use < c11Uses; use++ {
 							emit(core.Case{Fam: "hosted", N: []int{p, a, how, use}})
+						}
+					}
+				}
+			}
+		}},
+		{Name: "imports survive an embed / include of a template that imports other macros under the same local names (embed, include, embed with an override, include only, embed in a loop) x plain / renamed from-import x 0..3 parameters x 0..4 arguments", Gen: func(emit func(core.Case)) {
+			for p := 0; p <= 3; p++ {
+				for a := 0; a <= 4; a++ {
+					for how := 0; how < 5; how++ {
+						for rn := 0; rn < 2; rn++ {
+							emit(core.Case{Fam: "between", N: []int{p, a, how, rn}})
 						}
 					}
 				}
